@@ -351,7 +351,7 @@ func cmdCheck(args []string) {
 	timeoutMs := fs.Int("solver-timeout-ms", 20000, "per-query solver timeout")
 	only := fs.String("only", "", "only run harnesses whose name contains this")
 	totalTimeout := fs.Int("total-timeout-s", 0, "wall-clock limit for the whole check (0: 1500 s quick, 6 h thorough); jobs not started by then are reported as not run (exit 2)")
-	jobTimeout := fs.Int("job-timeout-s", 900, "wall-clock limit per job (a job hitting it is inconclusive)")
+	jobTimeout := fs.Int("job-timeout-s", 0, "wall-clock limit per job (a job hitting it is inconclusive; 0: 900 s quick, 3600 s thorough)")
 	verbose := fs.Bool("v", false, "verbose")
 	summary := fs.String("summary", "", "write a per-shape summary of violation ids (for differential self-checks)")
 	if len(args) < 1 {
@@ -406,6 +406,12 @@ func cmdCheck(args []string) {
 	}
 	sort.Strings(knownOpenList)
 	jobs := spec.Jobs(*tier)
+	if *jobTimeout == 0 {
+		*jobTimeout = 900
+		if *tier == "thorough" {
+			*jobTimeout = 3600
+		}
+	}
 	var filtered []sym.Job
 	for _, j := range jobs {
 		if *only != "" && !strings.Contains(j.Harness, *only) {
